@@ -73,7 +73,20 @@ func (g *Gen) call(v ssa.Value, c *ssa.CallCommon, st *State) *State {
 	}
 	// dynamic call through a function value: parameter contract?
 	if pc := g.funcParamContract(c.Value); pc != nil {
-		return g.applyContract(v, pc, c.Signature(), args, st, "call "+c.Value.Name())
+		argTV := make([]TV, len(args))
+		for i, a := range args {
+			argTV[i] = TV{g.val(a), g.u.SortOf(a.Type()), a.Type()}
+		}
+		extra := map[string]TV{}
+		switch x := c.Value.(type) {
+		case *ssa.Field:
+			extra["self"] = TV{g.val(x.X), g.u.SortOf(x.X.Type()), x.X.Type()}
+		case *ssa.UnOp:
+			if fa, ok := x.X.(*ssa.FieldAddr); ok && g.places[fa.X] == nil {
+				extra["self"] = TV{g.val(fa.X), "Int", fa.X.Type()}
+			}
+		}
+		return g.applyContractTV(v, pc, c.Signature(), argTV, extra, st, strings.TrimPrefix(pc.Name, "field "), args)
 	}
 	return g.unknownCall(v, "dynamic "+c.Value.Name(), c.Signature(), args, st, nil)
 }
@@ -320,7 +333,7 @@ func (g *Gen) applyContractTV(v ssa.Value, con *spec.FuncContract, sig *types.Si
 	}
 	for _, r := range con.Requires {
 		goal := g.evalBool(pre, r.Expr, r.Src)
-		g.addObl("pre", sanitize(short)+"."+r.Label, g.reach[g.curBlock], goal, r.Src, false)
+		g.rootGen().deferObl("pre", sanitize(short)+"."+r.Label, g.reach[g.curBlock], goal, r.Src)
 	}
 	// frame
 	post := st
